@@ -176,16 +176,17 @@ Theorem C10_two_way_memo_needs_involution : forall inv x,
 Proof. exact two_way_memo_needs_involution. Qed.
 Print Assumptions C10_two_way_memo_needs_involution.
 
-(* 8c. state that outlives one check, regenerated from the seven files: every module- or
-       class-level mutable object that is stored through is audited, the only process-global
-       cache is `_empty_constrained.resolution_cache`, whose key -- analysed field by field, not as
+(* 8c. state that outlives one check, regenerated from EVERY non-test module: every module- or
+       class-level mutable object that is stored through and every functools.cache/lru_cache
+       function is audited; the process-global caches are exactly the five named below; the
+       cache of the shared sentinel is `_empty_constrained.resolution_cache`, whose key -- analysed field by field, not as
        text -- takes varname, node and state over from the lookup context unchanged; every other
        cache lookup/store of the seven files uses exactly the pinned key expression *)
 Theorem C10_global_state_classified :
   forallb state_classified state_items = true /\ state_audit_live state_items = true /\
   cache_keys = pinned_cache_keys /\ resolution_key_ok resolution_key_fields = true /\
-  map st_name (filter (fun s => match lookup_state s state_audit with Some (SProcessCache _) => true | _ => false end) state_items)
-  = ["_empty_constrained"%string].
+  map st_name (filter (fun s => match lookup_state s (state_audit ++ state_audit_extra)%list with Some (SProcessCache _) => true | _ => false end) state_items)
+  = ["_empty_constrained"; "directory_has_init"; "get_all_error_codes"; "_get_checker"; "_typing_name_cache"]%string.
 Proof.
   destruct all_state_items_classified as [H1 H2]. split; [exact H1|]. split; [exact H2|].
   split; [apply keys_eqb_eq; exact cache_keys_are_pinned|].
